@@ -400,6 +400,6 @@ func genProg(t *rapid.T) ProgCase {
 	return c
 }
 
-var propProg = h.NewProp("TestPropProgram", h.Budget{Quick: 1800, Thorough: 18000}, genProg, runProg)
+var propProg = h.NewProp("TestPropProgram", h.Budget{Quick: 1800, Thorough: 11000}, genProg, runProg)
 
 func TestPropProgram(t *testing.T) { propProg.Check(t) }
